@@ -53,7 +53,7 @@ Fact prohibited_bos_body_as_modelled : F.prohibited_bos_body =
 Proof. vm_compute. reflexivity. Qed.
 
 Fact continuous_phrase_body_as_modelled : F.continuous_phrase_body =
-  "lazy_static! { static ref QUOTE_MARKER: Regex = Regex::new(&format!( ""(！|？|\\!|\\?|[{}])(と|っ|です)"", CLOSE_PARENTHESIS )) .unwrap(); static ref EOS_ITEMIZE_HEADER: Regex = Regex::new(&format!(""([{}])([{}])\\z"", ALPHABET_OR_NUMBER, DOT)).unwrap(); } let last_char_len = s[..eos].chars().last().unwrap().to_string().len(); if let Some(mat) = QUOTE_MARKER.find(&s[(eos - last_char_len)..])? { if mat.start() == 0 { return Ok(true); } } let c = s[eos..].chars().nth(0).unwrap(); Ok((c == 'と' || c == 'や' || c == 'の') && EOS_ITEMIZE_HEADER.is_match(&s[..eos])?)".
+  "lazy_static! { static ref QUOTE_MARKER: Regex = Regex::new(&format!(""(！|？|\\!|\\?|[{}])(と|っ|です)"", CLOSE_PARENTHESIS)).unwrap(); static ref EOS_ITEMIZE_HEADER: Regex = Regex::new(&format!(""([{}])([{}])\\z"", ALPHABET_OR_NUMBER, DOT)).unwrap(); } let last_char_len = s[..eos].chars().last().unwrap().to_string().len(); if let Some(mat) = QUOTE_MARKER.find(&s[(eos - last_char_len)..])? { if mat.start() == 0 { return Ok(true); } } let c = s[eos..].chars().nth(0).unwrap(); Ok((c == 'と' || c == 'や' || c == 'の') && EOS_ITEMIZE_HEADER.is_match(&s[..eos])?)".
 Proof. vm_compute. reflexivity. Qed.
 
 Fact iter_next_body_as_modelled : F.iter_next_body =
